@@ -17,7 +17,7 @@ A_CACHE = A_ENV + [
 ]
 O_CACHE = ["bursts longer than the stated number of calls, more client goroutines than stated, more than 3 keys", "cost magnitudes >= 2^40", "shards other than 0 and 1"]
 
-QUICK_PAIRS = {(0,1,1),(0,0,1),(1,5,1)}
+QUICK_PAIRS = {(0,1,1),(1,5,1)}
 
 MENU = {"set0": 1, "set1": 2, "set2": 4, "del0": 8, "get0": 16, "wait": 32, "ttl0": 64, "get1": 128, "del1": 256, "heavy0": 512, "clear": 1024, "heavy2": 2048, "ttlfree0": 4096, "big3": 8192}
 def menu(*names): return sum(MENU[n] for n in names)
@@ -68,7 +68,7 @@ specs["C03"] = dict(prefixes=["C03.", "C09.fits", "no-panic"], runs=[
   {"pkg": "root", "fn": "vfH_Policy_Add", "params": {"residents": 6}, "tiers": T, "fallback": "cvc5-int,z3-new", "max_paths": 60000},
   {"pkg": "root", "fn": "vfH_Policy_Ops", "params": {"residents": 3}, "tiers": QT, "fallback": "cvc5-int,z3-new"},
   {"pkg": "root", "fn": "vfH_Policy_Add", "params": {"residents": 7, "unit": 1}, "tiers": QT, "fallback": "cvc5-int,z3-new"},
-  burst(Q, ops=2, menu=menu("set1", "set2", "del0"), maxcost=2, setbuf=2, sketch=1, pre=2),
+  burst(T, ops=2, menu=menu("set1", "set2", "del0"), maxcost=2, setbuf=2, sketch=1, pre=2),
   burst(QT, ops=2, menu=menu("set0", "set1"), maxcost=1, setbuf=4, sketch=1, pre=1),
   burst(T, ops=3, menu=menu("set0", "set1", "set2", "del0"), maxcost=2, setbuf=2, sketch=1, pre=1),
   burst(T, ops=2, menu=menu("set0", "set1", "set2", "heavy0"), maxcost=2, setbuf=2, sketch=1, pre=1),
@@ -135,7 +135,8 @@ specs["C13"] = dict(prefixes=["C13.", "no-panic", "no-deadlock"], runs=[
   burst(Q, ops=2, menu=menu("set1", "set2", "del0"), maxcost=1, setbuf=2, sketch=1, iter=1, pre=1),
   burst(QT, ops=1, menu=menu("heavy2"), maxcost=2, setbuf=2, sketch=1, iter=1, pre=2),
   burst(QT, ops=1, menu=menu("heavy2", "set2"), maxcost=2, setbuf=1, sketch=1, pre=2, drain=1),
-  burst(QT, ops=1, menu=menu("big3"), maxcost=3, setbuf=2, sketch=1, pre=3, nk=4, drain=1),
+  burst(QT, ops=1, menu=menu("big3"), maxcost=3, setbuf=2, sketch=1, pre=3, nk=4, drain=1, maporder=0),
+  burst(T, ops=1, menu=menu("big3"), maxcost=3, setbuf=2, sketch=1, pre=3, nk=4, drain=1),
   burst(QT, ops=1, menu=menu("ttl0"), maxcost=2, setbuf=2, ttl=1, pre=0),
   burst(QT, ops=2, menu=menu("ttl0", "set1"), maxcost=2, setbuf=2, ttl=1, pre=0),
   burst(T, ops=2, menu=menu("ttl0", "set1", "heavy2"), maxcost=2, setbuf=2, ttl=1000000000, pre=1, sketch=1),
